@@ -195,8 +195,15 @@ ACTION_BUDGET = {"LeaderAppend": lambda c: True, "Replicate": lambda c: c["N"] >
 def action_coverage(out, consts):
     """-coverage 1: every action that the configuration's budgets allow must have produced states (DESIGN 4.6 iii)."""
     acts = {}
-    for m in re.finditer(r"^<(\w+) line \d+, col \d+ to line \d+, col \d+ of module Verifier(?: \([^)]*\))?>: (\d+):(\d+)", out, re.M):
-        acts[m.group(1)] = {"distinct": int(m.group(2)), "generated": int(m.group(3))}
+    src = open(os.path.join(SPEC, "Verifier.tla")).read().splitlines()
+    for m in re.finditer(r"^<(\w+) line \d+, col \d+ to line \d+, col \d+ of module Verifier(?: \((\d+) [^)]*\))?>: (\d+):(\d+)", out, re.M):
+        name = m.group(1)
+        if name == "Next" and m.group(2):      # a disjunct of Next whose quantifier bounds depend on the state
+            mm = re.search(r": (\w+)\(", src[int(m.group(2)) - 1])
+            name = mm.group(1) if mm else name
+        a = acts.setdefault(name, {"distinct": 0, "generated": 0})
+        a["distinct"] += int(m.group(3))
+        a["generated"] += int(m.group(4))
     dead = sorted(a for a, on in ACTION_BUDGET.items() if on(consts) and acts.get(a, {}).get("generated", 0) == 0)
     return {"actions": {a: acts.get(a) for a in ACTION_BUDGET}, "dead": dead}
 
